@@ -5,6 +5,8 @@ import fnmatch
 def _glob(pat, val):
     if pat is None:
         return True
+    if isinstance(pat, list):  # any of several patterns
+        return any(fnmatch.fnmatchcase(str(val), str(p_)) for p_ in pat)
     return fnmatch.fnmatchcase(str(val), str(pat))
 
 
